@@ -197,13 +197,10 @@ func doRead(v *verr.ValidationError, op int) (val readVal, pmsg string) {
 	}()
 	switch op {
 	case rError:
-		s := v.Error()
-		ls := strings.Split(s, "\n")
-		if len(ls) > 0 && ls[len(ls)-1] == "" {
-			ls = ls[:len(ls)-1]
-		}
-		sort.Strings(ls)
-		return readVal{IsLines: true, Lines: ls}, ""
+		// the whole string, transported losslessly as its pieces between newline bytes (Coq re-joins them with
+		// newlines before judging: messages may themselves contain newlines, so these pieces are NOT "the lines");
+		// the pieces are shared between cases through the string table
+		return readVal{IsLines: true, Lines: strings.Split(v.Error(), "\n")}, ""
 	case rFlatE:
 		m := v.GetFlatErrorMap()
 		return readVal{MapNil: m == nil, Map: canonMap(m, true)}, ""
@@ -251,10 +248,32 @@ func snapRef(term string) string {
 	return fmt.Sprintf("snap_%d", i)
 }
 
+// strLit renders a Go string (an arbitrary byte sequence) as a Coq term of type string: a literal when every byte
+// is printable ASCII, newline or tab, otherwise the list of its byte codes (CorrC20.sc), which
+// round-trips control characters, NUL, quotes, multi-byte UTF-8 and invalid UTF-8 alike.
+func strLit(s string) string {
+	plain := true
+	for i := 0; i < len(s); i++ {
+		if (s[i] < 0x20 && s[i] != '\n' && s[i] != '\t') || s[i] > 0x7e {
+			plain = false
+			break
+		}
+	}
+	if plain {
+		// newline and tab may stand in a Coq string literal as they are; a double quote is written twice
+		return `"` + strings.ReplaceAll(s, `"`, `""`) + `"%string`
+	}
+	p := make([]string, len(s))
+	for i := 0; i < len(s); i++ {
+		p[i] = fmt.Sprintf("%d", s[i])
+	}
+	return "(sc [" + strings.Join(p, "; ") + "]%Z)"
+}
+
 func strPrelude() string {
 	var sb strings.Builder
 	for i, s := range strList {
-		fmt.Fprintf(&sb, ".\nDefinition str_%d : string := \"%s\"%%string", i, strings.ReplaceAll(s, `"`, `""`))
+		fmt.Fprintf(&sb, ".\nDefinition str_%d : string := %s", i, strLit(s))
 	}
 	for i, t := range snapList {
 		fmt.Fprintf(&sb, ".\nDefinition snap_%d : vt := %s", i, t)
@@ -733,16 +752,69 @@ func (g *gen) withKids(n *node, c kidCfg) *node {
 	return n
 }
 
+// specials: strings with format verbs and other metacharacters.  They are used as messages, field names, child
+// names, plain-error texts and wrapper texts: wherever a caller's string flows to an output it must arrive unchanged.
+var specials = []string{
+	"%", "%s", "%d", "%v", "%!", "%%", "100% of the base", "%20", "%!o(MISSING)", "%[1]s", "%*d", "%!(EXTRA string=x)",
+	"\\", "\\n", "a\\", "\n", "a\nb", "x\nERROR: fake\nWARNING: fake", "\r\n", "\t", "tab\there",
+	"\"", "say \"hi\"", "'", "`", "\x00", "a\x00b", "\x7f", "\x1b[31mred",
+	"é", "日本語", "😀 ok", "\xff\xfe", "\xc3", "a\xc3(", "\xef\xbf\xbd",
+	"{{.}}", "$1", "${x}", "<b>&amp;</b>", "(* *)", "(*", ". .", "..", " ", "  two  spaces  ",
+	longString("%", 450), longString("%s", 150),
+}
+
+// longString: a very long string (about 1.7 kB / 0.7 kB) that is not self-similar - the numbers 0..n joined by sep -
+// so that the substring searches of the evaluator stay linear
+func longString(sep string, n int) string {
+	p := make([]string, n)
+	for i := range p {
+		p[i] = fmt.Sprint(i)
+	}
+	return strings.Join(p, sep)
+}
+
+
 var childNames = []string{"a", "b", "a.b", "", "x"}
 var fieldNames = []string{"c", "b.c", "a.c", "", "f", "a.b.c", "b"}
 var msgTexts = []string{"required", "too long", "x: y", "ERROR: fake", "m", ""}
+
+var specialNames []string // the specials short enough to be used as field and child names
+
+func init() {
+	for _, x := range specials {
+		if len(x) < 100 { // the very long ones are exercised by the specials stream only
+			msgTexts = append(msgTexts, x)
+			specialNames = append(specialNames, x)
+		}
+	}
+}
+
+// pickNames returns n distinct names: each from the plain alphabet (which is built to collide under dotted
+// prefixes) or, one time in three, from the specials
+func pickNames(r *rand.Rand, n int, plain []string) []string {
+	seen := map[string]bool{}
+	var out []string
+	for len(out) < n {
+		var x string
+		if r.Intn(3) == 0 {
+			x = specialNames[r.Intn(len(specialNames))]
+		} else {
+			x = plain[r.Intn(len(plain))]
+		}
+		if !seen[x] {
+			seen[x] = true
+			out = append(out, x)
+		}
+	}
+	return out
+}
 
 func (g *gen) randMap(r *rand.Rand) int {
 	if len(g.ms) > 0 && r.Intn(6) == 0 {
 		return r.Intn(len(g.ms)) // share an existing map object
 	}
 	n := r.Intn(4)
-	perm := r.Perm(len(fieldNames))
+	names := pickNames(r, n, fieldNames)
 	var m mapSpec
 	for i := 0; i < n; i++ {
 		cnt := r.Intn(4)
@@ -754,7 +826,7 @@ func (g *gen) randMap(r *rand.Rand) int {
 				l = append(l, g.msg())
 			}
 		}
-		m = append(m, entry{fieldNames[perm[i]], l})
+		m = append(m, entry{names[i], l})
 	}
 	g.ms = append(g.ms, sortSpec(m))
 	return len(g.ms) - 1
@@ -771,7 +843,11 @@ func (g *gen) randNode(r *rand.Rand, depth int) *node {
 	if depth == 0 || r.Intn(5) == 0 {
 		switch r.Intn(3) {
 		case 0:
-			return &node{Ctor: ctorNew, Ctx: fieldNames[r.Intn(len(fieldNames))], Msg: g.msg(), IsW: r.Intn(2) == 0}
+			msg := g.msg()
+			if r.Intn(4) == 0 {
+				msg = msgTexts[r.Intn(len(msgTexts))]
+			}
+			return &node{Ctor: ctorNew, Ctx: pickNames(r, 1, fieldNames)[0], Msg: msg, IsW: r.Intn(2) == 0}
 		case 1:
 			return &node{Ctor: ctorErrs, Errs: g.randRef(r), Warns: -1, KidsNil: r.Intn(2) == 0}
 		default:
@@ -783,9 +859,9 @@ func (g *gen) randNode(r *rand.Rand, depth int) *node {
 		n.Warns = g.randRef(r)
 	}
 	fan := 1 + r.Intn(3)
-	perm := r.Perm(len(childNames))
+	names := pickNames(r, fan, childNames)
 	for i := 0; i < fan; i++ {
-		n.Kids = append(n.Kids, kid{childNames[perm[i]], g.randNode(r, depth-1)})
+		n.Kids = append(n.Kids, kid{names[i], g.randNode(r, depth-1)})
 	}
 	n.Kids = sortKids(n.Kids)
 	return n
@@ -1384,7 +1460,7 @@ func histRandom(r *rand.Rand, count int) {
 			case x < 4:
 				ops = append(ops, hop{Kind: hRead, Op: r.Intn(5)})
 			case x < 5:
-				ops = append(ops, hop{Kind: hReadChild, Path: randPath(r), Op: r.Intn(3)})
+				ops = append(ops, hop{Kind: hReadChild, Path: randPath(r, start), Op: r.Intn(3)})
 			case x < 8:
 				ops = append(ops, hop{Kind: hAdd, A: g.randArg(r, 1)})
 			case x < 9:
@@ -1394,20 +1470,66 @@ func histRandom(r *rand.Rand, count int) {
 				if a.Kind == aNilPtr {
 					a = &arg{Kind: aPlainPtr, S: g.msg()}
 				}
-				ops = append(ops, hop{Kind: hAddChild, Path: randPath(r), A: a})
+				ops = append(ops, hop{Kind: hAddChild, Path: randPath(r, start), A: a})
 			}
 		}
 		runHist("random", g.ms, start, ops, r.Intn(2) == 0)
 	}
 }
 
-func randPath(r *rand.Rand) []string {
+// randPath walks one or two levels down the children of the start tree (a random name when there are none)
+func randPath(r *rand.Rand, start *node) []string {
 	n := 1 + r.Intn(2)
-	p := make([]string, n)
-	for i := range p {
-		p[i] = childNames[r.Intn(len(childNames))]
+	var p []string
+	cur := start
+	for i := 0; i < n; i++ {
+		if cur == nil || len(cur.Kids) == 0 {
+			if i == 0 {
+				p = append(p, childNames[r.Intn(len(childNames))])
+			}
+			break
+		}
+		k := cur.Kids[r.Intn(len(cur.Kids))]
+		p = append(p, k.Name)
+		cur = k.N
 	}
 	return p
+}
+
+// specialsStream: every special string as message, field name, child name, plain-error text and wrapper text, read
+// through every read and joined through AddErrorToValidation in both positions
+func specialsStream(thorough bool) int {
+	n := 0
+	for i, x := range specials {
+		name := "a"
+		if len(x) < 100 {
+			name = x
+		}
+		isw := i%2 == 0
+		{
+			g := &gen{}
+			g.ms = append(g.ms, sortSpec(mapSpec{{name, []string{x, "plain", x}}, {"c", []string{"before", x}}}))
+			root := &node{Ctor: ctorErrs, Errs: 0, Warns: -1, Kids: []kid{{name, &node{Ctor: ctorNew, Ctx: name, Msg: x, IsW: isw}}}}
+			runRead("specials", g.ms, root, []int{rError, rFlatE, rFlatW, rTopE, rError, rFlatE}, i%3 == 0)
+			n++
+		}
+		runAdd("specials", nil, &arg{Kind: aPlainPtr, S: x}, &arg{Kind: aVE, N: &node{Ctor: ctorNew, Ctx: name, Msg: x, IsW: !isw}}, false, false)
+		n++
+		if thorough {
+			g := &gen{}
+			g.ms = append(g.ms, mapSpec{{name, []string{x}}})
+			root := &node{Ctor: ctorWW, Errs: -1, Warns: 0, KidsNil: true}
+			runRead("specials", g.ms, root, []int{rError, rFlatW, rTopW, rError}, false)
+			runAdd("specials", nil, &arg{Kind: aWrap, S: x, Inner: &arg{Kind: aVE, N: &node{Ctor: ctorNew, Ctx: "c", Msg: x}}}, &arg{Kind: aPlainVal, S: x}, false, false)
+			runAdd("specials", nil, &arg{Kind: aFmtWrap, S: x, Inner: &arg{Kind: aPlainPtr, S: x}}, &arg{Kind: aNil}, false, false)
+			n += 3
+		}
+		runHist("specials", nil, &node{Ctor: ctorNew, Ctx: "c", Msg: x, IsW: isw}, []hop{{Kind: hRead, Op: rError},
+			{Kind: hAdd, A: &arg{Kind: aPlainPtr, S: x}}, {Kind: hRead, Op: rError}, {Kind: hRead, Op: rFlatE},
+			{Kind: hAdd, A: &arg{Kind: aVE, N: &node{Ctor: ctorNew, Ctx: name, Msg: x, IsW: true}}}, {Kind: hRead, Op: rError}, {Kind: hRead, Op: rFlatW}}, false)
+		n++
+	}
+	return n
 }
 
 // ---------- corpus: the Findings/VErr.v witnesses, run first ----------
@@ -1567,6 +1689,11 @@ func main() {
 		same := r.Intn(8) == 0 && a1.Kind != aNil
 		runAdd("random", g.ms, a1, a2, same, r.Intn(2) == 0)
 	}
+
+	// metacharacters: format verbs, control characters, quotes, NUL, multi-byte and invalid UTF-8, very long strings
+	nSpecials := specialsStream(thorough)
+	W.Extra["special_strings"] = len(specials)
+	W.Extra["special_string_cases"] = nSpecials
 
 	// histories: reads and AddErrorToValidation calls interleaved on one running object and its children
 	nHistExh := histExhaustive(thorough)
